@@ -51,12 +51,21 @@ theorem ident_program_third (env : Env) (name : Str) (code : List Instr) (rest :
   simp only [popS, ht, hp, hg, refValue]
   cases (rec env code true log).res <;> rfl
 
-/-- Nothing of that name: a Binding error value. -/
+/-- Nothing of that name: a Binding error value — and the interpreter notes that it met a name it could not
+    resolve (`markUnres`: recorded for the compiler's `check_for_const` only; in every run-time environment the
+    log stays as it is, `ident_unbound_runtime`). -/
 theorem ident_unbound (env : Env) (name : Str) (rest : List SVal) (log : Log)
     (ht : env.getType name = none) (hp : env.getParam name = none) (hg : env.getProg name = none) :
     popS rec env { stack := .val (.ident name) :: rest, log := log } =
-      .ok (.val (.err .binding)) { stack := rest, log := log } := by
+      .ok (.val (.err .binding)) { stack := rest, log := markUnres env log } := by
   simp [popS, ht, hp, hg]
+
+theorem ident_unbound_runtime (env : Env) (name : Str) (rest : List SVal) (log : Log)
+    (htr : env.trackUnres = false)
+    (ht : env.getType name = none) (hp : env.getParam name = none) (hg : env.getProg name = none) :
+    popS rec env { stack := .val (.ident name) :: rest, log := log } =
+      .ok (.val (.err .binding)) { stack := rest, log := log } := by
+  rw [ident_unbound env name rest log ht hp hg, markUnres_untracked htr]
 
 /-- The type table does not depend on what the caller bound: with bindings present, `int`, `string`, …
     resolve to their type whatever parameters, programs and functions exist. -/
@@ -90,7 +99,8 @@ theorem user_function_over_builtin (env : Env) (name : Str) (f : UserFn) (hb : e
     (1) a bound function — whatever macros or types carry the same name — is invoked;
     (2) otherwise a macro of that name is invoked on the unevaluated argument blocks;
     (3) otherwise a type of that name constructs from the evaluated arguments;
-    (4) otherwise the call fails with a Runtime error value ("not callable"). -/
+    (4) otherwise the call fails with a Runtime error value ("not callable"), and the interpreter notes that
+        it met a name it could not resolve (`markUnres`; no change of a run-time log). -/
 theorem call_func_over_macro_over_type (env : Env) (len n pc : Nat) (fname : Str) (s s1 s2 : St)
     (args : List Val)
     (h1 : popRaw s = .ok (.val (.ident fname)) s1) (h2 : popN rec env n s1 = .ok args s2) :
@@ -105,7 +115,8 @@ theorem call_func_over_macro_over_type (env : Env) (len n pc : Nat) (fname : Str
           | .error (a, l) => .ok pc (pushV (.err a.kind) { s2 with log := l })
           | .ok (vs, l) => .ok pc (pushV (B.ctor tn vs) { s2 with log := l })) ∧
     (env.getFunc B fname = none → env.isMacro fname = false → env.getType fname = none →
-        step B rec recTop env len (.call n) pc s = .ok pc (pushV (.err .runtime) s2)) := by
+        step B rec recTop env len (.call n) pc s =
+          .ok pc (pushV (.err .runtime) { s2 with log := markUnres env s2.log })) := by
   refine ⟨?_, ?_, ?_, ?_⟩
   · intro c hc; simp [step, h1, h2, hc]
   · intro hf hm; simp [step, h1, h2, hf, hm]
